@@ -1919,10 +1919,6 @@ func (p *Parser) parseConditionVarOperator(expression *ast.OperatorExpression) e
 			} else if p.curToken.Type == token.RPAREN {
 				if numOpenParens == 0 {
 					p.nextToken()
-					if len(parts) > 1 {
-						parts = append(parts, ")")
-						parts = append([]string{"("}, parts...)
-					}
 					break
 				}
 				numOpenParens -= 1
@@ -1934,6 +1930,12 @@ func (p *Parser) parseConditionVarOperator(expression *ast.OperatorExpression) e
 			}
 		}
 		expression.ComparisonValue = strings.Join(parts, " ")
+		if strings.Contains(expression.ComparisonValue, " ") {
+			// A value of more than one token is kept grouped. The test is made on the
+			// substituted text, so that a constant standing for several tokens is
+			// grouped exactly like the same tokens written out.
+			expression.ComparisonValue = "( " + expression.ComparisonValue + " )"
+		}
 	} else {
 		parts := []string{}
 		startToken := p.curToken
